@@ -55,7 +55,7 @@ class Check:
         self.pid = pid
         self.tier = tier
         self.seed = int(os.environ.get("VERIF_SEED", "0") or 0)
-        self.rng = random.Random((self.seed << 8) ^ int(pid[1:]))
+        self.rng = random.Random((self.seed << 8) ^ int(re.sub(r"\D", "", pid) or 0))  # C04x etc.: scratch copies of a check under development
         self.t0 = time.time()
         self.violations: list[Violation] = []
         self.known_hits: Counter = Counter()
